@@ -5,7 +5,7 @@ Open Scope N_scope.
 Ltac psimpl :=
   cbn [s_now s_control s_restart_iin s_enabled s_last s_select s_unsol s_unsol_seq s_deferred
        s_last_recorded s_last_bcast s_sol_buf s_unsol_buf s_pending s_frame_id s_notify
-       s_sel_status s_op_status s_app_iin s_answers
+       s_sel_status s_op_status s_app_iin s_answers s_bcast_rep upd_bcast_rep
        upd_control upd_now upd_restart upd_enabled upd_last upd_select upd_unsol upd_unsol_seq
        upd_deferred upd_last_recorded upd_last_bcast upd_sol_buf upd_unsol_buf upd_pending
        upd_frame_id upd_notify upd_knobs upd_answers session_reset deferred_set fst snd].
@@ -13,7 +13,7 @@ Ltac psimpl :=
 Ltac psimpl_in H :=
   cbn [s_now s_control s_restart_iin s_enabled s_last s_select s_unsol s_unsol_seq s_deferred
        s_last_recorded s_last_bcast s_sol_buf s_unsol_buf s_pending s_frame_id s_notify
-       s_sel_status s_op_status s_app_iin s_answers
+       s_sel_status s_op_status s_app_iin s_answers s_bcast_rep upd_bcast_rep
        upd_control upd_now upd_restart upd_enabled upd_last upd_select upd_unsol upd_unsol_seq
        upd_deferred upd_last_recorded upd_last_bcast upd_sol_buf upd_unsol_buf upd_pending
        upd_frame_id upd_notify upd_knobs upd_answers session_reset deferred_set fst snd] in H.
@@ -71,11 +71,26 @@ Proof.
   destruct (s_last_bcast s1) as [[]|]; reflexivity.
 Qed.
 
+Lemma bcast_reported_frame : forall s c, frame s (bcast_reported s c).
+Proof. intros s c. unfold bcast_reported. destruct (s_last_bcast s) as [[]|]; reflexivity. Qed.
+
+Lemma bcast_confirmed_frame : forall s u q, frame s (bcast_confirmed s u q).
+Proof. intros s u q. unfold bcast_confirmed. destruct (rep_eqb _ _ _); reflexivity. Qed.
+
+Lemma bcast_reported_sol_buf : forall s c, s_sol_buf (bcast_reported s c) = s_sol_buf s.
+Proof. intros s c. unfold bcast_reported. destruct (s_last_bcast s) as [[]|]; reflexivity. Qed.
+
+Lemma bcast_reported_unsol_buf : forall s c, s_unsol_buf (bcast_reported s c) = s_unsol_buf s.
+Proof. intros s c. unfold bcast_reported. destruct (s_last_bcast s) as [[]|]; reflexivity. Qed.
+
+Lemma bcast_reported_last_bcast : forall s c, s_last_bcast (bcast_reported s c) = s_last_bcast s.
+Proof. intros s c. unfold bcast_reported. destruct (s_last_bcast s) as [[]|] eqn:E; psimpl; auto. Qed.
+
 Lemma write_solicited_frame : forall s d r s' r' o, write_solicited s d r = (s', r', o) -> frame s s'.
 Proof.
   intros s d r s' r' o H. unfold write_solicited in H.
   destruct (response_iin s) as [[s1 iin] o1] eqn:E. apply response_iin_frame in E.
-  inv_pair H. exact E.
+  inv_pair H. eapply frame_trans; [exact E|apply bcast_reported_frame].
 Qed.
 
 Lemma write_iin_bits_frame : forall bits s s' v o, write_iin_bits s bits = (s', v, o) -> frame s s'.
@@ -234,11 +249,11 @@ Proof.
   { unfold response_iin in E. destruct (ask_evinfo s) as [[s0 [[[c1 c2] c3] ovf]] o0] eqn:E0.
     inv_pair E. unfold ask_evinfo in E0.
     destruct (s_answers s) as [|[] rest]; inv_pair E0; destruct (s_last_bcast _) as [[]|]; reflexivity. }
-  inv_pair H. exists o1. repeat split; auto.
-  - destruct (s_last_bcast s') as [[]|]; reflexivity.
-  - destruct (s_last_bcast s') as [[]|]; try reflexivity.
+  inv_pair H. exists o1. rewrite bcast_reported_sol_buf. repeat split; auto.
+  - destruct (s_last_bcast s1) as [[]|]; reflexivity.
+  - destruct (s_last_bcast s1) as [[]|]; try reflexivity.
     cbn [with_ctl r_ctl or_iin]. apply ctl_seq_set_con.
-  - destruct (s_last_bcast s') as [[]|]; reflexivity.
+  - destruct (s_last_bcast s1) as [[]|]; reflexivity.
 Qed.
 
 Lemma write_solicited_out : forall s d r s' r' o,
@@ -582,9 +597,9 @@ Lemma process_broadcast_spec : forall cfg s m fid ctl fn bytes obj s' o,
                    enabled_change cfg fn hdrs s s').
 Proof.
   intros cfg s m fid ctl fn bytes obj s' o H. unfold process_broadcast in H.
-  assert (H0 : gview (upd_last_bcast s (Some m)) = gview s) by reflexivity.
-  assert (He0 : s_enabled (upd_last_bcast s (Some m)) = s_enabled s) by reflexivity.
-  set (s0 := upd_last_bcast s (Some m)) in *.
+  assert (H0 : gview (upd_bcast_rep (upd_last_bcast s (Some m)) None) = gview s) by reflexivity.
+  assert (He0 : s_enabled (upd_bcast_rep (upd_last_bcast s (Some m)) None) = s_enabled s) by reflexivity.
+  set (s0 := upd_bcast_rep (upd_last_bcast s (Some m)) None) in *.
   assert (Hfr : forall s1, frame s0 s1 -> gview s1 = gview s /\ s_enabled s1 = s_enabled s).
   { intros s1 Hf. apply frame_gview in Hf. destruct Hf as [Hg He]. split; congruence. }
   destruct (negb (o_broadcast cfg)) eqn:Eb.
@@ -993,14 +1008,18 @@ Proof.
       destruct Hen as [Hen|(Hu & Hfn & Hen)]; [left; exact Hen|right; repeat split; auto]. }
     split; [intros Hk; eapply last_ok_same; [|exact Hk]; rewrite Hl; reflexivity|]. intros _. exact Ho.
   - (* solicited confirm *)
-    inv_pair H. split; [destruct (s_last_bcast s) as [[]|]; reflexivity|].
-    split; [left; destruct (s_last_bcast s) as [[]|]; reflexivity|].
-    split; [intros Hk; eapply last_ok_same; [|exact Hk]; destruct (s_last_bcast s) as [[]|]; reflexivity|].
+    inv_pair H. pose proof (bcast_confirmed_frame s false q) as Hf. apply frame_wview in Hf.
+    destruct Hf as (Hw & _ & Hl & He).
+    split; [exact Hw|]. split; [left; exact He|].
+    split; [intros Hk; eapply last_ok_same; [|exact Hk]; exact Hl|].
     intros _. constructor.
   - (* unsolicited confirm *)
     destruct (q =? ctl_seq (r_ctl resp)) eqn:Eq.
     + apply N.eqb_eq in Eq. subst q. inv_pair H.
-      split; [reflexivity|]. split; [left; reflexivity|]. split; [auto|]. repeat split; try reflexivity.
+      pose proof (bcast_confirmed_frame s true (ctl_seq (r_ctl resp))) as Hf. apply frame_wview in Hf.
+      destruct Hf as (Hw & Hd & Hl & He).
+      split; [exact Hw|]. split; [left; exact He|].
+      split; [intros Hk; eapply last_ok_same; [|exact Hk]; exact Hl|]. repeat split; assumption.
     + inv_pair H. split; [reflexivity|]. split; [left; reflexivity|]. split; [auto|]. intros _. constructor.
 Qed.
 
@@ -1092,9 +1111,12 @@ Lemma start_unsol_spec : forall cfg s0 s r n s' o,
 Proof.
   intros cfg s0 s r n s' o H Hf Hc Hq Hu Hn Hd Hp He Hl. unfold start_unsol in H.
   destruct (write_unsolicited cfg s r) as [[s1 r1] o1] eqn:E. inv_pair H.
-  unfold write_unsolicited in E. destruct (response_iin s) as [[s2 iin] o2] eqn:Ei. inv_pair E.
+  unfold write_unsolicited in E. destruct (response_iin s) as [[s2 iin] o2] eqn:Ei.
+  remember (bcast_reported s2 (r_ctl (or_iin r iin))) as s1' eqn:Es1.
+  rewrite <- (bcast_reported_unsol_buf s2 (r_ctl (or_iin r iin))), <- Es1 in E.
+  assert (Hfr : frame s2 s1') by (subst s1'; apply bcast_reported_frame). clear Es1. inv_pair E.
   pose proof (response_iin_out _ _ _ _ Ei) as Ho2.
-  apply response_iin_frame in Ei.
+  apply response_iin_frame in Ei. pose proof (frame_trans _ _ _ Ei Hfr) as Ei'. clear Ei Hfr. rename Ei' into Ei.
   assert (Hv : uview s1 = uview s /\ s_enabled s1 = s_enabled s /\ s_last s1 = s_last s).
   { unfold frame, fview in Ei. repeat split; congruence. }
   destruct Hv as (Hv & He1 & Hl1). unfold uview in Hv.
